@@ -11,9 +11,9 @@ Go strings are byte lists.  An `http.Header` is an association list from key to 
 observed through `Hdr.vals`/`Hdr.has` only (a Go map has no order).  The placeholder
 replacer (`httpserver.Replacer`) is a parameter `repl : Str → Str` of the model.
 
-Not modelled (the streams stay away from them, see docs/C04.md): unix/quic targets, upstream
-credentials in the target URL, websocket upgrades, regex header replacements (3-argument
-header_upstream/header_downstream), non-ASCII white space in `Connection` values
+Not modelled (the streams stay away from them, see docs/C04.md): unix/quic targets, websocket
+upgrades, regex header replacements with a non-literal pattern or `$` in the replacement, and any
+header_downstream replacement, non-ASCII white space in `Connection` values
 (`strings.TrimSpace` is modelled for ASCII).
 
 CORE LEAN ONLY: this file is linked into the model driver.
@@ -267,16 +267,55 @@ def createUpstreamRequest (hop : List Str) (r : Request) : Request :=
     | none => h2
   { r with header := h3, body := if r.contentLength == 0 then none else r.body }
 
+/-- regex header replacements (3-argument header_upstream), restricted to literal patterns:
+canonical field ↦ (pattern, replacement) pairs in configuration order -/
+abbrev Repls := List (Str × List (Str × Str))
+
+/-- `regexp.ReplaceAllString` for a non-empty literal pattern and a `$`-free replacement:
+leftmost non-overlapping occurrences (`skip` = bytes of the current match still to drop) -/
+def replaceAllGo (pat to : Str) : Nat → Str → Str
+  | _, [] => []
+  | skip + 1, _ :: cs => replaceAllGo pat to skip cs
+  | 0, c :: cs =>
+    if pat.isPrefixOf (c :: cs) then to ++ replaceAllGo pat to (pat.length - 1) cs
+    else c :: replaceAllGo pat to 0 cs
+
+def replaceAll (s pat to : Str) : Str := if pat == [] then s else replaceAllGo pat to 0 s
+
+/-- what one replacement makes of the value list of its field: only the first value is read
+(`Get`), and `Set` leaves only the rewritten value -/
+def replOn (repl : Str → Str) (vs : List Str) (pt : Str × Str) : List Str :=
+  if repl pt.2 != [] && vs.headD [] != [] then [replaceAll (vs.headD []) pt.1 (repl pt.2)] else vs
+
+/-- the second loop of `mutateHeadersByRules` for one field -/
+def applyRepl (repl : Str → Str) (h : Hdr) (fr : Str × List (Str × Str)) : Hdr :=
+  fr.2.foldl (fun h pt =>
+    if repl pt.2 != [] && h.get fr.1 != [] then h.set fr.1 (replaceAll (h.get fr.1) pt.1 (repl pt.2)) else h) h
+
+def applyRepls (repl : Str → Str) (h : Hdr) (repls : Repls) : Hdr := repls.foldl (applyRepl repl) h
+
+def sAuthorization : Str := [65, 117, 116, 104, 111, 114, 105, 122, 97, 116, 105, 111, 110]
+
 structure Upstream where
   target : URL
   without : Str
   upRules : Rules
   downRules : Rules
+  /-- the `Authorization` value made from the credentials of the backend URL (`SetBasicAuth`), if it has any -/
+  cred : Option Str := none
+  upRepls : Repls := []
 
-/-- One attempt of `Proxy.ServeHTTP` on an outgoing request `o`: Host, header_upstream rules,
-Host override from the rules, then the Director (run by `ReverseProxy.ServeHTTP`). -/
+/-- "use upstream credentials by default": only when the request carries no Authorization of its own -/
+def applyCred (cred : Option Str) (h : Hdr) : Hdr :=
+  match cred with
+  | some c => if h.get sAuthorization == [] then h.set sAuthorization c else h
+  | none => h
+
+/-- One attempt of `Proxy.ServeHTTP` on an outgoing request `o`: Host, upstream credentials,
+header_upstream rules and replacements, Host override from the rules, then the Director (run by
+`ReverseProxy.ServeHTTP`). -/
 def attempt (repl : Str → Str) (u : Upstream) (o : Request) : Request :=
-  let hdr := applyRules repl o.header u.upRules
+  let hdr := applyRepls repl (applyRules repl (applyCred u.cred o.header) u.upRules) u.upRepls
   let host :=
     match (hdr.vals sHost).getLast? with
     | some v => v
